@@ -399,7 +399,7 @@ func TestC05(t *testing.T) {
 
 	// (2) sequential histories, in-process, rapid state machine
 	p = c.rec.NewPart("rapid_histories", "rapid state machine: actions sqli+xss(x), burst(x,n), revisit(earlier x); the history is judged as a whole against fresh(x)", true, false, "")
-	c.Rapid(p, 1, pick(1500, 40000), func(rt *rapid.T, sh int) ev.Case {
+	c.Rapid(p, 1, pick(6000, 60000), func(rt *rapid.T, sh int) ev.Case {
 		var h []string
 		rt.Repeat(map[string]func(*rapid.T){
 			"call": func(t *rapid.T) { h = append(h, rapid.SampledFrom(U).Draw(t, "x")) },
@@ -421,7 +421,7 @@ func TestC05(t *testing.T) {
 
 	// (3) concurrent schedules in fresh processes
 	p = c.rec.NewPart("concurrent_children", "G in {2,8,32,128} goroutines x Gosched period x GOMAXPROCS in fresh race-enabled processes over rapid-drawn shared input subsets", true, false, "")
-	c.Rapid(p, 1, pick(24, 400), func(rt *rapid.T, sh int) ev.Case {
+	c.Rapid(p, 1, pick(72, 600), func(rt *rapid.T, sh int) ev.Case {
 		g := rapid.SampledFrom([]int{2, 8, 32, 128}).Draw(rt, "goroutines")
 		yield := rapid.SampledFrom([]int{0, 1, 3, 7}).Draw(rt, "yield")
 		procs := rapid.SampledFrom([]int{0, 2, 4, 16}).Draw(rt, "procs")
